@@ -187,6 +187,14 @@ pub fn eval(ctx: &Ctx, case: &Case) {
             (msk, Sm9EncKey { ppube: msk.ppube, de: lib_g2_affine(&fx.de_a) }, Sm9EncKey { ppube: msk.ppube, de: lib_g2_affine(&fx.de_b) })
         }
     };
+    // tag "...user-key-ppube-dummy...": the parties' private-key objects carry a placeholder in their own copy of Ppub-e (P1);
+    // the exchange takes the master public key from the master-key object it is given
+    let (key_a, key_b) = if case.tag.contains("user-key-ppube-dummy") {
+        let dummy = lib_g1_affine(&sm9::params().p1);
+        (Sm9EncKey { ppube: dummy, de: key_a.de }, Sm9EncKey { ppube: dummy, de: key_b.de })
+    } else {
+        (key_a, key_b)
+    };
     let tag = &case.tag;
     let mut g = SplitMix::new(ctx.seed, "c17filler");
     let mut fill = |first: &BigUint| -> Vec<[u8; 32]> {
@@ -372,6 +380,9 @@ pub fn run(ctx: &Arc<Ctx>) {
         for klen in [16usize, 48] {
             cases.push(Case { cfg: c.clone(), klen, adv: [0, 0], tag: format!("honest/cfg{}", ci) });
         }
+    }
+    for c in cfgs.iter().take(2) {
+        cases.push(Case { cfg: c.clone(), klen: 16, adv: [0, 7], tag: "honest/user-key-ppube-dummy".into() });
     }
     // curve coordinates stored under Z = 2, to either party; and both parties under the same identity
     for ci in 0..2usize.min(cfgs.len()) {
